@@ -406,7 +406,7 @@ impl Property for C44 {
         "release arithmetic (wrapping on overflow); the tokio clock is paused and auto-advances",
         "the mapping PTP(TAI) -> NTP timestamp used to recognise the source of a measurement is seconds + 2208988800 - 37 modulo 2^32 with nanoseconds scaled to 2^-32 s",
     ];
-    const QUICK_CASES: u32 = 400_000;
+    const QUICK_CASES: u32 = 600_000;
     const THOROUGH_CASES: u32 = 10_000_000;
 
     fn strategy(_tier: Tier) -> BoxedStrategy<Case> {
